@@ -368,6 +368,14 @@ func (s *s1) transact(i int, txn TxnSpec) *TxnOutcome {
 		return nil
 	}
 	out.After, out.RefsAft = after, refsA
+	{
+		var sb strings.Builder
+		for _, op := range ops {
+			fmt.Fprintf(&sb, "%v:%v,", op["op"], op["table"])
+		}
+		fmt.Fprintf(&sb, "|%v|%d|%s", out.Failed, out.OpFailAt, errClass(out.CommitErr))
+		e.ShapeAdd(sb.String())
+	}
 	if out.Failed {
 		e.Probes["txn_failed"]++
 		if out.CommitErr != "" {
